@@ -1641,6 +1641,7 @@ func (w *envelopingWriter) maybeInit() {
 	// synthesize envelope
 	if limit := int(w.rw.op.methodConf.maxMsgBufferBytes); w.rw.contentLen > limit {
 		w.err = bufferLimitError(int64(limit))
+		w.rw.reportError(w.err)
 		return
 	}
 	var env envelope
